@@ -28,5 +28,12 @@ def run(ctx):
     # every class must compile the pattern of its own structure(): what the accepted language rests on
     from ..rules_ast import persistent_state_rule
     ctx.guard(persistent_state_rule, ctx, "C11.own-pattern")
+    # "such a product can itself be assembled at the next level": its two overhangs come from different records (one from
+    # a module, one from the vector), spelt in whatever letter case each of them uses -- the next assembly chains it only
+    # if overhangs are compared by their letters, not by their spelling
+    from ..rules_misc import case_taint_rule, collect_walk_effects
+    records_ = ctx.guard(collect_walk_effects, ctx)
+    if records_ is not None:
+        ctx.guard(case_taint_rule, ctx, "C11.overhang-identity", records_)
     run_kernels(ctx, ["K13", "K16"], "C11")
     run_kernels(ctx, ["K1", "K10", "K2"], "C11")
